@@ -169,7 +169,7 @@ def project_op(o, keys, side):
     return d
 
 
-ALL_KEYS = ["panic", "err", "ret", "vals", "active", "calls", "exec", "unknown", "out", "attached"]
+ALL_KEYS = ["panic", "err", "ret", "vals", "active", "calls", "exec", "unknown", "out", "attached", "set"]
 
 
 def mask_help(v):
